@@ -242,6 +242,13 @@ fn limits_case<K: El, V: El>(cfg: &Cfg, state: u64, size: usize, rng: &mut Rng, 
     for e in 41..64 {
         args.push(1u64 << e);
     }
+    // shrink_to with a floor nobody can reach is a no-op by contract; issued first, while the
+    // state is still split (a failing try_reserve may finish the resize before it fails)
+    for d in (0..=span).step_by(1 + span as usize / 24) {
+        s.go(Op::n(Code::ShrinkTo, u64::MAX - d));
+        s.go(Op::n(Code::ShrinkTo, i64::MAX as u64 - d));
+        s.go(Op::n(Code::ShrinkTo, i64::MAX as u64 + d + 1));
+    }
     for a in args {
         s.go(Op::n(Code::TryReserve, a));
         // the infallible call only with sizes whose failure is arithmetic (a panic, not an abort)
@@ -720,6 +727,26 @@ fn observe_same(x: &HashMap<u64, u64, Bh>, y: &HashMap<u64, u64, Bh>, universe: 
     Ok(())
 }
 
+/// The unsigned integers in a Debug rendering, in order of appearance.
+fn debug_numbers(s: &str) -> Vec<u64> {
+    let mut out = Vec::new();
+    let mut cur: Option<u64> = None;
+    for ch in s.chars() {
+        match ch.to_digit(10) {
+            Some(d) => cur = Some(cur.unwrap_or(0).wrapping_mul(10).wrapping_add(d as u64)),
+            None => {
+                if let Some(c) = cur.take() {
+                    out.push(c);
+                }
+            }
+        }
+    }
+    if let Some(c) = cur {
+        out.push(c);
+    }
+    out
+}
+
 pub fn meta(a: &Args, rep: &mut Report) {
     let sh = Shard::from_args(a);
     let mut rng = sh.rng(0x3e7a);
@@ -732,7 +759,7 @@ pub fn meta(a: &Args, rep: &mut Report) {
             contents.insert(hr.below(universe), hr.below(50));
         }
         let recipe = |hr: &mut Rng| Recipe {
-            bh: Bh::new(*hr.pick(&[HMode::Good, HMode::Good, HMode::Identity, HMode::SameTag, HMode::LowEntropy]), hr.below(16)),
+            bh: Bh::new(*hr.pick(&[HMode::Good, HMode::Good, HMode::Identity, HMode::SameTag, HMode::LowEntropy, HMode::OneShot]), hr.below(16)),
             cap: *hr.pick(&[usize::MAX, 0, n, 2 * n, 7, 100]),
             shuffle: hr.next(),
             noise: hr.usize(n + 1),
@@ -749,15 +776,84 @@ pub fn meta(a: &Args, rep: &mut Report) {
             let (m1, s1) = build_map(&contents, &r1);
             let (m2, s2) = build_map(&contents, &r2);
             let (m3, s3) = build_map(&contents, &r3);
-            // premise of the property: the maps really hold the same elements (by len and
-            // lookup). If a builder operation itself is broken that is not C14's finding.
+            // premise of the property: the maps really hold the same elements. A map that is
+            // self-consistent (len, iteration and lookups tell the same story) but holds
+            // something else was mis-built by a broken builder operation: not C14's finding.
+            // A map whose observers contradict each other is judged by the comparisons below.
+            let intended: Vec<(u64, u64)> = contents.iter().map(|(a, b)| (*a, *b)).collect();
+            let mut inconsistent: Option<String> = None;
             for (i, m) in [&m1, &m2, &m3].into_iter().enumerate() {
-                if m.len() != contents.len() || contents.iter().any(|(k, v)| m.get(k) != Some(v)) {
+                let mut by_iter: Vec<(u64, u64)> = m.iter().map(|(a, b)| (*a, *b)).collect();
+                by_iter.sort_unstable();
+                let mut keys: Vec<u64> = (0..universe).chain(by_iter.iter().map(|p| p.0)).collect();
+                keys.sort_unstable();
+                keys.dedup();
+                let by_get: Vec<(u64, u64)> = keys.iter().filter_map(|k| m.get(k).map(|v| (*k, *v))).collect();
+                let consistent = by_iter == by_get && m.len() == by_iter.len();
+                if consistent && by_iter != intended {
                     return Err(format!("PREMISE: the map built by recipe {} does not hold the intended contents (len {} vs {})", i + 1, m.len(), contents.len()));
                 }
+                if !consistent && inconsistent.is_none() {
+                    inconsistent = Some(format!("the map built by recipe {} contradicts itself: len() {}, iteration yields {} pairs, lookups find {}", i + 1, m.len(), by_iter.len(), by_get.len()));
+                }
             }
-            observe_same(&m1, &m2, universe)?;
-            observe_same(&m2, &m3, universe)?;
+            let note = |e: String| match &inconsistent {
+                Some(i) => format!("{e} [{i}]"),
+                None => e,
+            };
+            observe_same(&m1, &m2, universe).map_err(note)?;
+            observe_same(&m2, &m3, universe).map_err(note)?;
+            if let Some(i) = inconsistent {
+                // the same contradiction in every layout: not layout dependence, but not a map
+                return Err(format!("PREMISE: {i}"));
+            }
+            // consuming iterators and the iterators' own Debug output, on maps rebuilt by the
+            // same recipes (a clone would not be mid-resize)
+            let mut views: Vec<Vec<Vec<u64>>> = Vec::new();
+            for r in [&r1, &r2, &r3] {
+                let mut v: Vec<Vec<u64>> = Vec::new();
+                let pairs = |mut p: Vec<(u64, u64)>| -> Vec<u64> {
+                    p.sort_unstable();
+                    p.into_iter().flat_map(|(a, b)| [a, b]).collect()
+                };
+                let dbg_pairs = |s: String| -> Vec<u64> {
+                    let n = debug_numbers(&s);
+                    let mut p: Vec<(u64, u64)> = n.chunks(2).map(|c| (c[0], *c.get(1).unwrap_or(&u64::MAX))).collect();
+                    p.sort_unstable();
+                    p.into_iter().flat_map(|(a, b)| [a, b]).collect()
+                };
+                let dbg_list = |s: String| -> Vec<u64> {
+                    let mut n = debug_numbers(&s);
+                    n.sort_unstable();
+                    n
+                };
+                let (m, _) = build_map(&contents, r);
+                v.push(dbg_pairs(format!("{:?}", m.iter())));
+                v.push(dbg_list(format!("{:?}", m.keys())));
+                v.push(dbg_list(format!("{:?}", m.values())));
+                let it = m.into_iter();
+                v.push(dbg_pairs(format!("{it:?}")));
+                v.push(vec![it.len() as u64]);
+                v.push(pairs(it.collect()));
+                let (mut m, _) = build_map(&contents, r);
+                {
+                    let d = m.drain();
+                    v.push(dbg_pairs(format!("{d:?}")));
+                    v.push(vec![d.len() as u64]);
+                    v.push(pairs(d.collect()));
+                }
+                v.push(vec![m.len() as u64]);
+                let (mut m, _) = build_map(&contents, r);
+                v.push(dbg_pairs(format!("{:?}", m.iter_mut())));
+                v.push(dbg_list(format!("{:?}", m.values_mut())));
+                views.push(v);
+            }
+            const VIEW: [&str; 12] = ["Debug of iter()", "Debug of keys()", "Debug of values()", "Debug of into_iter()", "into_iter().len()", "into_iter()", "Debug of drain()", "drain().len()", "drain()", "len() after drain()", "Debug of iter_mut()", "Debug of values_mut()"];
+            for j in 0..VIEW.len() {
+                if views[0][j] != views[1][j] || views[1][j] != views[2][j] {
+                    return Err(format!("{} differs between maps with equal contents: {:?} / {:?} / {:?}", VIEW[j], crate::exec::abbreviate(&views[0][j]), crate::exec::abbreviate(&views[1][j]), crate::exec::abbreviate(&views[2][j])));
+                }
+            }
             // reflexive, transitive
             #[allow(clippy::eq_op)]
             if !(m1 == m1) || !(m1 == m3) {
